@@ -88,8 +88,12 @@ def readLoop (n : Nat) : Nat → Bytes → Reader → RN
     | (.fail, r') => .err .fail acc.length r'
     | (.stall, r') => .stall acc.length r'
 
-/-- enough fuel: every round but the last two uses up one cap -/
-def readN (n : Nat) (r : Reader) : RN := readLoop n (r.caps.length + 2) [] r
+/-- `timeoutDelimitedReader.read(n)`.  For `n = 0` it returns at once without a `Read` (a
+zero-length `Read` may block: a synchronous pipe waits for the peer's next write, see
+`Model/SyncPipe.lean`; finding F29, repaired in 715ef44).  Otherwise the loop, with enough fuel:
+every round but the last two uses up one cap. -/
+def readN (n : Nat) (r : Reader) : RN :=
+  if n = 0 then .ok [] r else readLoop n (r.caps.length + 2) [] r
 
 /-- `io.ReadAtLeast(r, buf, min)` with `min = len(buf)`:
 `for n < min && err == nil { nn, err = Read(buf[n:]); n += nn }`, then `n >= min → nil`,
@@ -205,6 +209,13 @@ deriving DecidableEq, Repr
 def Site.limit : Site → Nat
   | .server => 1048576
   | .client => 16777216
+
+/-- the time-out period of each site, in milliseconds: `serverResponseTimeout` = 10 s,
+`clientResponseTimeout` = 20 s.  A function of the site alone: the period does not depend on what
+is outstanding when a read begins. -/
+def Site.timeoutMs : Site → Nat
+  | .server => 10000
+  | .client => 20000
 
 /-- one `ReadDelimitedMessage` at a call site (up to `Unmarshal`) -/
 def readAt (s : Site) (r : Reader) : MsgOut := readMessage s.limit r
